@@ -91,10 +91,12 @@ def run(chk, repo):
            'the max-variants-per-node branch creates or links nodes instead of skipping the route', key=mr.qual + '::limit-skip', fn=mr.qual)
     nh = repo.func('svgraph.PeptideVariantGraph:PeptideVariantGraph.nodes_have_too_many_variants')
     chk.uses(nh)
-    t = unparse(nh.node)
-    ok = 'if self.cleavage_params.max_variants_per_node == -1:\n        return False' in t and \
-        'return len(variants) > self.cleavage_params.max_variants_per_node' in t
-    chk.ob('C02.b', 'limit predicate: disabled at -1, strict > limit', nh.where, ok, 'nodes_have_too_many_variants altered', key=nh.qual, fn=nh.qual)
+    lits = sem.accept_literals(sem.nf(repo, nh)) or set()
+    M = 'self.cleavage_params.max_variants_per_node'
+    ok = sem.lit(f'{M} == -1', False) in lits and any(a.startswith(f'{M} < len(') and p is True for a, p in lits) and \
+        not any(a.startswith(f'{M} <= len(') and p is True for a, p in lits)
+    chk.ob('C02.b', 'limit predicate: disabled at -1, strict > limit', nh.where, ok,
+           f"nodes_have_too_many_variants returns True under {sorted(lits)} (expected: limit != -1 and number of variants strictly above the limit)", key=nh.qual, fn=nh.qual)
 
     # ------------------------------------------------------------------ c
     retry_effects(chk, repo, 'C02.c')
